@@ -38,8 +38,13 @@ def run_config(p, d, cfg, timeout=180):
         if "-C" not in args:
             args = ["-c"] + args
         timeout = max(timeout, 900)
-    return D.run_souffle(p, d, args=args, outsub="out_" + hashlib.md5(cfg.name.encode()).hexdigest()[:8], timeout=timeout,
-                         env=cfg.env, dl=dlname, jobs=cfg.jobs, prefix=getattr(cfg, "out_prefix", ""))
+    res = None
+    for attempt in (1, 3):          # a run that hits the time limit is repeated once with three times the limit
+        res = D.run_souffle(p, d, args=args, outsub="out_" + hashlib.md5(cfg.name.encode()).hexdigest()[:8], timeout=timeout * attempt,
+                            env=cfg.env, dl=dlname, jobs=cfg.jobs, prefix=getattr(cfg, "out_prefix", ""))
+        if res[0] != -9:
+            break
+    return res
 
 
 def shrink(p, fails, budget=60):
